@@ -18,7 +18,7 @@ let o = Fops.ops
 let fl = float_of_string
 let kind_of = function
   | "affine" -> LAffine | "exp" -> LExp | "softplus" -> LSoftplus | "tanh" -> LTanh | "leaky" -> LLeaky
-  | "rqs" -> LRqs | "leakyold" -> LLeakyOld | "rqsold" -> LRqsOld | s -> failwith ("kind " ^ s)
+  | "rqs" -> LRqs | "leakyold" -> LLeakyOld | "rqsold" -> LRqsOld | "rqszero" -> LRqsZero | s -> failwith ("kind " ^ s)
 let mkenv x scalars xp yp dv = { vars = x :: scalars; pars = [xp; yp; dv] }
 let tvar i = TVar (nat_of_int i)
 let tpar p j = TPar (nat_of_int p, z_of_int j)
@@ -52,7 +52,8 @@ let handle toks =
       let k = kind_of kind in
       let e = (match fn with
         | "fwd" -> fwd_t k vX | "inv" -> inv_t k vX | "ldfwd" -> ld_fwd_t k vX | "ldinv" -> ld_inv_t k vX
-        | "deriv" -> (match k with LRqsOld -> rqs_deriv_old_t nV vLO vHI vX | _ -> rqs_deriv_t nV vLO vHI vX)
+        | "deriv" -> (match k with LRqsOld -> rqs_deriv_old_t nV vLO vHI vX | LRqsZero -> rqs_deriv_zero_t nV vLO vHI vX
+                               | _ -> rqs_deriv_t nV vLO vHI vX)
         | s -> failwith ("fn " ^ s)) in
       Printf.sprintf "%s %s %s" (hexf (eval o en e)) (hexf (vjp o en e 1. (tvar 0))) (bstr (safeb o en e))
   | ["prim"; k; a; b; d; g] ->
